@@ -50,6 +50,33 @@ type Op struct {
 
 const NAddr = 8
 
+// Listen tokens: 0‥7 are TCP addresses; 8, 9, 10 name ONE unix socket path written without
+// permission bits, with `|0600` and with `|0660`. The bits are not part of the socket's identity:
+// all three tokens are socket NSock-1 (= 8). NTok bounds the tokens, NSock the socket identities.
+const (
+	NTok  = 11
+	NSock = 9
+)
+
+// SockID: the socket a listen token names.
+func SockID(t int) int {
+	if t >= NAddr {
+		return NAddr
+	}
+	return t
+}
+
+// UnixMode: the permission bits a unix listen token asks for (listen() defaults to 0200).
+func UnixMode(t int) int {
+	switch t {
+	case 9:
+		return 0o600
+	case 10:
+		return 0o660
+	}
+	return 0o200
+}
+
 func (a App) IsHTTP() bool { return a.Name == 3 }
 
 // IsRp: the guest is the real reverse_proxy handler (key = its hosts pool entry).
@@ -213,7 +240,7 @@ func parseApp(s string) (App, bool) {
 		return App{}, false
 	}
 	for _, a := range l {
-		if a >= NAddr {
+		if a >= NTok {
 			return App{}, false
 		}
 	}
@@ -282,6 +309,18 @@ func parseCfg(s string) (Cfg, bool) {
 			}
 			apps = append(apps, a)
 		}
+	}
+	// at most one listener of a configuration names the unix socket
+	nu := 0
+	for _, a := range apps {
+		for _, ad := range a.Listen {
+			if ad >= NAddr {
+				nu++
+			}
+		}
+	}
+	if nu > 1 {
+		return Cfg{}, false
 	}
 	return Cfg{t, l, apps, st}, true
 }
@@ -356,6 +395,12 @@ func parseOp(s string) (Op, bool) {
 		a, ok1 := parseApp(p[1])
 		e, ok2 := parseEnv(p[2])
 		// the phase-2 fault needs the tls/pki apps of a whole configuration next to the HTTP app
+		// … and a partial change does not introduce the unix socket (another app may have it)
+		for _, ad := range a.Listen {
+			if ad >= NAddr {
+				return Op{}, false
+			}
+		}
 		return Op{Kind: 'P', App: a, Env: e}, ok1 && ok2 && a.Fault != 6
 	case len(p) == 3 && p[0] == "D":
 		n, ok1 := atoi(p[1])
